@@ -291,11 +291,16 @@ fn apply(xml: &str, ins: &[Insertion]) -> String {
     let mut seen_attr: Vec<(usize, String)> = Vec::new();
     for (pos, text) in edits {
         if text.starts_with(' ') {
-            let key = text.split('=').next().unwrap_or("").to_string();
-            if seen_attr.iter().any(|(p, k)| *p == pos && *k == key) {
+            // two prefixes may be bound to one URL: attributes of one tag are kept apart by their local names alone, and a
+            // tag gets at most one declaration of a second prefix
+            let mut keys: Vec<String> = text.split_whitespace().filter_map(|a| a.split('=').next()).map(|q| if q.starts_with("xmlns:") { "xmlns:*".to_string() } else { q.rsplit(':').next().unwrap_or(q).to_string() }).collect();
+            keys.dedup();
+            if keys.iter().any(|k| seen_attr.iter().any(|(p, s)| *p == pos && s == k)) {
                 continue;
             }
-            seen_attr.push((pos, key));
+            for k in keys {
+                seen_attr.push((pos, k));
+            }
         }
         out.insert_str(pos, &text);
     }
